@@ -115,7 +115,25 @@ pub fn fresh_equivalence(script: &Script, tr: &Trace, flavor: Flavor, watchdog: 
     };
     let settled = |o: &crate::script::Obs| o.snap.store.iter().all(|e| e.ttl_ns == 0 || e.created_ns.saturating_add(e.ttl_ns) > o.vnow);
     let (mut evs_a, mut evs_b): (Vec<String>, Vec<String>) = (Vec::new(), Vec::new());
+    let index_of = |k: u64| script.index_base + if script.cfg.collide { 1000 + k / 2 } else { k };
     for (i, (x, y)) in a.iter().zip(b.iter()).enumerate() {
+        // An operation on a key whose entry has expired but is not reclaimed yet has two legitimate outcomes
+        // (the entry is still there: update / true; it is gone: first insert / false), and which one it gets
+        // depends on the reclaim instant, which is free. From such a step on the two runs may differ.
+        if i > 0 && x.tick_at.is_none() {
+            let key = match &script.steps[x.step] {
+                Step::Insert { k, .. } | Step::InsertIfPresent { k, .. } | Step::Remove { k } | Step::GetMutWrite { k, .. } => Some(*k),
+                _ => None,
+            };
+            if let Some(k) = key {
+                let idx = index_of(k);
+                let dead = |o: &crate::script::Obs| o.snap.store.iter().any(|e| e.index == idx && e.ttl_ns != 0 && e.created_ns.saturating_add(e.ttl_ns) <= x.vnow);
+                if dead(&a[i - 1]) || dead(&b[i - 1]) {
+                    rep.count("c11_comparisons_ended_at_an_operation_on_an_expired_unreclaimed_entry");
+                    return !stop;
+                }
+            }
+        }
         macro_rules! cmp {
             ($what:expr, $l:expr, $r:expr) => {{
                 let (l, r) = ($l, $r);
